@@ -83,6 +83,7 @@ theorem trans_compareVersions (a r : Version) :
   · simp [Trans.ordInt]
   · simp only [Ordering.eq_then, ordInt_then, ordInt_compare, preRank]
     simp
+    try (repeat' split) <;> omega
   · simp [Trans.ordInt]
 
 -- the counted loop of `includesVersion` (`for i := 0; i < len(required.numbers); i++`), as the translator
